@@ -5,16 +5,20 @@
 import Driver.Util
 import Driver.Handlers.Dates
 import Driver.Handlers.Similarity
+import Driver.Handlers.Match
 import Driver.Handlers.DateParse
 import Driver.Handlers.Decoder
 import Driver.Handlers.Resolve
 import Driver.Handlers.Warnings
 import Driver.Handlers.Equal
 import Driver.Handlers.Living
+import Driver.Handlers.Html
+import Driver.Handlers.Query
+import Driver.Handlers.MergeGraph
 namespace Driver
 
 def handlers : List (String → List String → Option String) :=
-  [handleDates, handleSimilarity, handleDateParse, handleDecoder, handleResolve, handleWarnings, handleEqual, handleLiving]
+  [handleDates, handleSimilarity, handleMatch, handleDateParse, handleDecoder, handleResolve, handleWarnings, handleEqual, handleLiving, handleHtml, handleQuery, handleMergeGraph]
 
 def respond (line : String) : String :=
   match line.splitOn " " with
